@@ -898,6 +898,15 @@ func NewHaqq(
 		}
 	}
 
+	// The EVM keeper holds the EIP-155 chain id in memory and otherwise only learns it in
+	// InitGenesis and BeginBlock: a restarted node would check Ethereum transactions against
+	// a nil chain id (and reject all of them) until the first block after the restart begins.
+	if chainID := app.BaseApp.ChainID(); chainID != "" {
+		if _, err := ethermint.ParseChainID(chainID); err == nil {
+			app.EvmKeeper.WithChainID(sdk.Context{}.WithChainID(chainID))
+		}
+	}
+
 	app.ScopedIBCKeeper = scopedIBCKeeper
 	app.ScopedTransferKeeper = scopedTransferKeeper
 
